@@ -3,7 +3,7 @@ programs + observations into Gallina terms, evaluate model comparison and the pr
 import concurrent.futures as CF
 from . import common as C
 
-HEADER = 'From WM Require Import Base.Prelude Message.Model Handler.RouterHandle Router.Wiring Router.WiringSpec Corr.C08 Corr.C09.\n'
+HEADER = 'From WM Require Import Base.Prelude Message.Model Handler.RouterHandle Router.Wiring Router.WiringSpec Router.Life Corr.C08 Corr.C09.\n'
 PB = ['PubAccept', 'PubError', 'PubPanic']
 
 TRUSTED_BASE = [
@@ -75,9 +75,31 @@ def op_term(p, o):
     raise C.CheckError('unknown op ' + k)
 
 def case_term(p):
-    ops = C.coq_list([op_term(p, o) for o in p['ops']])
-    obs = C.coq_list([C.coq_list(['(%s, %s)' % (n(p['nameids'][c['owner']]), C.coq_list([ev_term(e) for e in c['trace']])) for c in ob]) for ob in p['obs']])
-    return '(WC %s %s)' % (ops, obs)
+    """a Router program (plugins, Handlers() calls, Wiring operations) + its observations in program order"""
+    ids = p['nameids']
+    pops = []; obs = []
+    dels = iter(p['obs']); views = iter(p.get('views') or [])
+    first_start = True
+    for o in p['ops']:
+        k = o['k']
+        if k == 'addplugin':
+            pops.append('(PAddPlugin %s %s)' % (n(o['id']), C.coq_bool(bool(o.get('fails')))))
+        elif k == 'view':
+            pops.append('PView')
+            v = next(views, None)
+            if v is not None:
+                obs.append('(PNames %s)' % nl([ids.get(x, 999999) for x in v]))
+        else:
+            pops.append('(PCore %s)' % op_term(p, o))
+            if k == 'deliver':
+                ob = next(dels, None)
+                if ob is not None:
+                    obs.append('(PDel %s)' % C.coq_list(['(%s, %s)' % (n(ids[c['owner']]), C.coq_list([ev_term(e) for e in c['trace']])) for c in ob]))
+            elif k in ('start', 'startasync') and first_start:
+                first_start = False
+                if p.get('plugran'):
+                    obs.append('(PPlug %s %s)' % (nl(p.get('plug') or []), C.coq_bool(bool(p.get('plugok')))))
+    return '(LC %s %s)' % (C.coq_list(pops), C.coq_list(obs))
 
 def describe(p, tab=None):
     ops = []
@@ -88,12 +110,15 @@ def describe(p, tab=None):
         elif k == 'addhmw': ops.append(('[in window] ' if o.get('win') else '') + 'Handler(%r).AddMiddleware(mw%d%s)' % (o.get('name', ''), o['id'], ' appends msg %d' % (100 + o['id']) if o.get('app') else ''))
         elif k == 'addmw': ops.append('Router.AddMiddleware(mw%d%s)' % (o['id'], ' appends msg %d' % (100 + o['id']) if o.get('app') else ''))
         elif k == 'start': ops.append('Run / RunHandlers' + (' (a decorator constructor fails: returns an error)' if o.get('fail') else ''))
+        elif k == 'addplugin': ops.append('AddPlugin(plugin%d%s)' % (o['id'], ' RETURNS AN ERROR' if o.get('fails') else ''))
+        elif k == 'view': ops.append('Handlers()')
         elif k == 'startasync': ops.append('Run / RunHandlers returns; the goroutines of %s are held before their copy of r.middlewares' % o.get('names'))
         elif k == 'snap': ops.append('handler %r copies r.middlewares now' % o.get('name', ''))
         elif k == 'stop': ops.append('Handler(%r).Stop()%s' % (o.get('name', ''), ' — the following [in window] ops run as soon as the name is free, before Stopped() closes' if o.get('early') else ', wait for Stopped()'))
         else: ops.append('%s(%d)%s%s' % (k, o['id'], ' [the library MessageTransform decorator]' if o.get('lib') else '', ' constructor fails %d time(s)' % o['fails'] if o.get('fails') else ''))
     return dict(kind=p['kind'], subscriber_types=p['subty'], publisher_types=p['pubty'], program=ops,
                 observed=[[dict(handler=c['owner'], trace=c['trace']) for c in ob] for ob in p['obs']], anomalies=p['anomaly'],
+                plugins_called=p.get('plug'), run_ok=p.get('plugok'), handlers_views=p.get('views'),
                 interned={v: k for k, v in p['nameids'].items()})
 
 def stats(res, p):
@@ -111,6 +136,9 @@ def stats(res, p):
     if subs_pre: res.count('programs_with_application_pre-decorated_subscribers')
     if any(sum(1 for h in hs if h['sub'] == i) > 1 for i in subs_pre): res.count('programs_with_a_pre-decorated_subscriber_shared_by_handlers')
     if 'message.messageTransformPublisherDecorator' in p['pubty']: res.count('programs_with_application_pre-decorated_publishers')
+    if any(o['k'] == 'addplugin' for o in p['ops']): res.count('programs_with_plugins')
+    if any(o['k'] == 'addplugin' and o.get('fails') for o in p['ops']): res.count('programs_whose_Run_is_aborted_by_a_plugin_error')
+    if p.get('views'): res.count('Handlers()_calls', len(p['views']))
     if p.get('snaps'): res.count('programs_registering_between_RunHandlers_return_and_the_copy_of_r.middlewares'); res.count('handler_goroutines_really_held_before_their_copy', p['snaps'])
     nstop = sum(1 for o in p['ops'] if o['k'] == 'stop')
     if nstop: res.count('programs_with_Handler.Stop'); res.count('handler_stops', nstop)
@@ -156,6 +184,8 @@ def shape(p):
         elif k == 'addsubdec': s.append('S%d' % o.get('fails', 0))
         elif k == 'start': s.append('!x' if o.get('fail') else '!')
         elif k == 'startasync': s.append('!~')
+        elif k == 'addplugin': s.append('G%d' % (1 if o.get('fails') else 0))
+        elif k == 'view': s.append('V')
         elif k == 'snap': s.append('~' + o.get('name', ''))
         elif k == 'stop': s.append(('Z' if o.get('early') else 'z') + o.get('name', ''))
     return tuple(s)
@@ -215,11 +245,11 @@ def evaluate(ctx, res, progs, vio_name, tag, sig_prefix, what):
     chunks = list(C.chunks(good, 120))
     def ev(i):
         chunk = chunks[i]
-        return C.coq_eval(pid, 'cases_%s_%d' % (tag, i), HEADER + 'Definition cases : list wcase := %s.\n' % C.coq_list([case_term(p) for p in chunk]),
-                          [('R_mis', 'w_mismatches cases'), ('R_vio', '%s cases' % vio_name)])
+        return C.coq_eval(pid, 'cases_%s_%d' % (tag, i), HEADER + 'Definition cases : list lcase := %s.\n' % C.coq_list([case_term(p) for p in chunk]),
+                          [('R_mis', 'l_mismatches cases'), ('R_vio', '%s cases' % vio_name)])
     with CF.ThreadPoolExecutor(max_workers=6) as ex:
         results = list(ex.map(ev, range(len(chunks))))
-    fb = vio_name.replace('violations', 'first_bad')
+    fb = vio_name.replace('lviolations', 'first_bad')
     nloc = 0
     for ci, (chunk, r) in enumerate(zip(chunks, results)):
         badidx = sorted(set(r['R_vio']) | set(r['R_mis']))
@@ -227,7 +257,7 @@ def evaluate(ctx, res, progs, vio_name, tag, sig_prefix, what):
         if badidx and nloc < 3:
             # locate the first rejected / differing delivery of (a few of) the bad programs for the replay file
             sel = badidx[:3]; nloc += len(sel)
-            lr = C.coq_eval(pid, 'locate_%s_%d' % (tag, ci), HEADER + 'Definition cases : list wcase := %s.\n' % C.coq_list([case_term(chunk[i]) for i in sel]),
+            lr = C.coq_eval(pid, 'locate_%s_%d' % (tag, ci), HEADER + 'Definition cases : list wcase := map lc_wc %s.\n' % C.coq_list([case_term(chunk[i]) for i in sel]),
                             [('R_fb', 'map %s cases' % fb), ('R_fd', 'map w_first_diff cases')])
             loc = {i: (lr['R_fb'][j], lr['R_fd'][j]) for j, i in enumerate(sel)}
         def focus(i, which):
